@@ -145,7 +145,20 @@ pub fn check_header(c: &HeaderCase, dir: &std::path::Path) -> Verdict {
     std::fs::write(&empty_fa, b"").unwrap();
     std::fs::write(&empty_fq, b"").unwrap();
     std::fs::write(&three, b">a\nACGTACGTTGCAAGGCTTAACCGGTT\n>b\nNNNN\n>c\nTTGACCAGTAGGCTAGCTAGGATCGAACG\n").unwrap();
-    let inputs: [(&str, &std::path::Path, usize, bool); 5] = [("one record", &input, 1, false), ("no record (.fa)", &empty_fa, 0, false), ("no record (.fq)", &empty_fq, 0, false), ("three records", &three, 3, false), ("three records on stdin", &three, 3, true)];
+    // first record shorter than k, an empty first record, and a first record without any base
+    let short_first = dir.join("short_first.fa");
+    std::fs::write(&short_first, b">s\nAC\n>e\n>n\nNNNNNNNNNN\n>r\nACGTACGTTGCAAGGCTTAACCGGTT\n").unwrap();
+    let empty_first = dir.join("empty_first.fa");
+    std::fs::write(&empty_first, b">e\n>r\nACGTACGTTGCAAGGCTTAACCGGTT\n>s\nA\n").unwrap();
+    let inputs: [(&str, &std::path::Path, usize, bool); 7] = [
+        ("one record", &input, 1, false),
+        ("no record (.fa)", &empty_fa, 0, false),
+        ("no record (.fq)", &empty_fq, 0, false),
+        ("three records", &three, 3, false),
+        ("three records on stdin", &three, 3, true),
+        ("first record shorter than k", &short_first, 4, false),
+        ("first record empty", &empty_first, 3, false),
+    ];
     for counts in [false, true] {
         for (what, inp, nrec, stdin) in inputs.iter() {
             let _ = std::fs::remove_file(&out);
